@@ -62,6 +62,14 @@ type Request struct {
 	SlowUploadMs int `json:"slow_upload_ms,omitempty"`
 }
 
+func fnv32(s string) uint32 {
+	h := uint32(2166136261)
+	for i := 0; i < len(s); i++ {
+		h = (h ^ uint32(s[i])) * 16777619
+	}
+	return h
+}
+
 var LogProtos = []string{"loki-json-values", "loki-json-entries", "loki-proto", "remote-write", "influx-log", "influx-metric", "datadog-logs", "datadog-metrics", "otlp-logs"}
 
 const Safe = "abcdefghijklmnopqrstuvwxyz0123456789_"
@@ -408,10 +416,21 @@ func Render(r *rand.Rand, proto_ string, c LogCase) Request {
 				for _, l := range s.Labels {
 					tags = append(tags, l[0]+":"+l[1])
 				}
-				parts := []string{
-					`"ddsource":"src"`, `"ddtags":` + jstr(nil, strings.Join(tags, ",")),
-					`"hostname":"h1"`, `"message":` + jstr(r, e.Line), `"service":"svc"`,
-					`"timestamp":` + strconv.FormatInt(e.TsNs/1e6, 10),
+				// the optional fields differ from stream to stream (decided by the stream id, so that the same stream looks
+				// the same in whatever body it travels): what one entry carries must not show up on the next
+				hv := fnv32(s.SID)
+				parts := []string{`"ddtags":` + jstr(nil, strings.Join(tags, ",")), `"message":` + jstr(r, e.Line), `"timestamp":` + strconv.FormatInt(e.TsNs/1e6, 10)}
+				if hv&1 == 0 {
+					parts = append(parts, `"ddsource":"src"`)
+				}
+				if hv&2 == 0 {
+					parts = append(parts, `"hostname":"h1"`)
+				}
+				if hv&4 == 0 {
+					parts = append(parts, `"service":"svc"`)
+				}
+				if hv&8 == 0 {
+					parts = append(parts, `"source_type":"st`+strconv.Itoa(int(hv>>4&3))+`"`)
 				}
 				r.Shuffle(len(parts), func(a, b int) { parts[a], parts[b] = parts[b], parts[a] })
 				items = append(items, "{"+strings.Join(parts, ",")+"}")
